@@ -11,6 +11,6 @@ CONSTANTS
   MaxOpts = 1
   AllowNoFs = TRUE
   Setters <- SettersAll
-  MaxSetters = 2
+  MaxSetters = 1
   ExportHist = TRUE
 INVARIANTS TypeOK Agrees CheckAgrees Bounded Consumed Export
